@@ -416,3 +416,101 @@ Definition to_written (v : optv) : written :=
 Definition client_of (c : config) : client :=
   {| k_deliver := DObject CSp; k_assigned := None; k_proxy := false;
      k_wr := to_written (c_wr c); k_wa := to_written (c_wa c); k_wor := to_written (c_wor c); k_only := c_only c |}.
+
+(* ---- several assertions in one Response (round 5) -----------------------------------------------------
+   A samlp:Response carries any number of saml:Assertion / saml:EncryptedAssertion children, in any order.
+   AuthnResponse.parse_assertion (response.py): the number rule (exactly one plain or exactly one encrypted
+   assertion, else InvalidAssertion); _assertion(a, False) for every plain assertion in document order; then
+   the decryption loop (xmlsec1 --decrypt opens ONE EncryptedData per call: the loop runs until none is left),
+   decrypt_assertions over ALL decrypted assertions (signature of each, verified=False), then
+   _assertion(a, True) for each of them (requirement, issuer comparison).  The first check that fails decides
+   the exception, and with it what the second pass of Entity._parse_response does. *)
+Record asn := { x_who : who; x_sig : option sgn; x_enc : bool }.
+Record mmsg := { mm_rwho : who; mm_rs : option sgn; mm_asl : list asn; mm_bind : bind }.
+
+(* the view of the earlier rounds: the Response together with ONE of its assertions *)
+Definition as_msg (mm : mmsg) (x : asn) : msg :=
+  {| r_who := mm_rwho mm; a_who := x_who x; m_rs := mm_rs mm; m_as := x_sig x; m_enc := x_enc x; m_bind := mm_bind mm |}.
+Definition asn_of (m : msg) : asn := {| x_who := a_who m; x_sig := m_as m; x_enc := m_enc m |}.
+Definition embed (m : msg) : mmsg :=
+  {| mm_rwho := r_who m; mm_rs := m_rs m; mm_asl := [asn_of m]; mm_bind := m_bind m |}.
+
+(* parse_assertion: `n_assertions != 1 and n_assertions_enc != 1` -> InvalidAssertion ("a saml2int limitation") *)
+Definition is_plain (x : asn) : bool := negb (x_enc x).
+Definition plain_of (l : list asn) : list asn := filter is_plain l.
+Definition enc_of (l : list asn) : list asn := filter x_enc l.
+Definition count_ok (l : list asn) : bool := Nat.eqb (length (plain_of l)) 1 || Nat.eqb (length (enc_of l)) 1.
+
+(* the checks parse_assertion makes, in the order it makes them *)
+Inductive chk :=
+  | KPlain (s : sres) (im : bool)     (* _assertion(a, False) of a plain assertion: signature, requirement, issuer comparison *)
+  | KDecrypted (s : sres)             (* decrypt_assertions: the signature of a decrypted assertion, if it carries one *)
+  | KRest (s : sres) (im : bool).     (* _assertion(a, True) of a decrypted assertion: requirement, issuer comparison *)
+
+Definition run_chk (require_signature : bool) (k : chk) : outcome :=
+  match k with
+  | KPlain s im => verify_assertions require_signature s im
+  | KDecrypted s => match s with SMissingKey => SigverErr | SSigErr => SignatureErr | SCrash => OtherErr | SAbsent | SOk => Done end
+  | KRest s im => match s with
+                  | SAbsent => if require_signature then SignatureErr else if im then Done else OtherErr
+                  | _ => if im then Done else OtherErr
+                  end
+  end.
+
+(* the first exception ends the walk *)
+Fixpoint first_err (l : list outcome) : outcome :=
+  match l with [] => Done | Done :: l' => first_err l' | o :: _ => o end.
+
+Definition x_find (only_md : bool) (mm : mmsg) (x : asn) : sres :=
+  look only_md (a_issuer (as_msg mm x)) (has_issuer (x_who x)) (x_sig x).
+Definition x_im (mm : mmsg) (x : asn) : bool := issuers_match (as_msg mm x).
+
+Definition schedule (only_md : bool) (mm : mmsg) : list chk :=
+  map (fun x => KPlain (x_find only_md mm x) (x_im mm x)) (plain_of (mm_asl mm))
+  ++ map (fun x => KDecrypted (x_find only_md mm x)) (enc_of (mm_asl mm))
+  ++ map (fun x => KRest (x_find only_md mm x) (x_im mm x)) (enc_of (mm_asl mm)).
+
+Definition verify_all (require_signature : bool) (ok_count : bool) (sch : list chk) : outcome :=
+  if negb ok_count then OtherErr else first_err (map (run_chk require_signature) sch).
+
+(* Entity._parse_response with the second pass over any `response.verify` (Model.core is the instance
+   verify = verify_assertions of the single assertion: Proofs.core_is_gen) *)
+Definition core_gen (wr wa wor : bool) (r : sres) (verify : bool -> outcome) (b : bind) : bool :=
+  match b with
+  | PAOS => false
+  | _ =>
+    let '(loaded, response_is_signed) :=
+      match load_response true r with
+      | Done => (true, true)
+      | OtherErr => (false, false)
+      | SigverErr | SignatureErr =>
+          if wr then (false, false) else (is_done (load_response wr r), false)
+      end in
+    if negb loaded then false else
+    let '(verified, assertions_are_signed) :=
+      match verify true with
+      | Done => (true, true)
+      | SignatureErr => if wa then (false, false) else (is_done (verify wa), false)
+      | SigverErr | OtherErr => (false, false)
+      end in
+    if negb verified then false else
+    if wor && negb response_is_signed && negb assertions_are_signed then false else true
+  end.
+
+(* validate_doc_with_schema of the signed Response: every plain assertion in it must name its issuer *)
+Definition x_schema_ok (x : asn) : bool := x_enc x || has_issuer (x_who x).
+Definition mm_schema_ok (mm : mmsg) : bool := forallb x_schema_ok (mm_asl mm).
+
+Definition parse_mmsg (c : config) (mm : mmsg) : bool :=
+  let wr := resolve (c_wr c) want_response_signed_default in
+  let wa := resolve (c_wa c) want_assertions_signed_default in
+  let wor := resolve (c_wor c) want_assertions_or_response_signed_default in
+  let only_md := resolve (c_only c) only_use_keys_in_metadata_default in
+  core_gen wr wa wor
+           (look only_md (mm_rwho mm) (mm_schema_ok mm) (mm_rs mm))
+           (fun q => verify_all q (count_ok (mm_asl mm)) (schedule only_md mm))
+           (mm_bind mm).
+
+Definition sp_run_mm (c : config) (ms : list mmsg) : list bool := map (parse_mmsg c) ms.
+Definition client_run_mm (k : client) (ms : list mmsg) : list bool :=
+  match read_config k with Some c => sp_run_mm c ms | None => map (fun _ => false) ms end.
